@@ -550,13 +550,13 @@ impl Prop for C12 {
     }
 
     fn rule(&self) -> String {
-        "three of four cases: one of 14 entry-point families against a valid model server that falls silent at a drawn point of the exchange (UDP: after k = 0..5 datagrams; TCP: refused, SYN black-holed, accepts then silent, stalls after 1-40 bytes, never closes), IPv4 or IPv6 destination, (read, write, connect) timeouts from {1 ns, 1 ms, 4 s, 1 h} or the defaults, retries 0..2; oracle over the history: every socket got the configured read / write timeouts and connect its connect timeout, no blocking call outlasts its timeout in virtual time, total virtual duration <= (retries+2) x steps x timeout + 1 s, error class (silence -> receive class, refusal / black hole -> SocketConnect), request bytes unmodified at the server. Every fourth case drives the re-exported transport layer directly: payload and reply sizes 0..65507 (boundary values and random), receive sizes, UDP / TCP, IPv4 / IPv6, short writes and segmentation: bytes at the peer == bytes sent, received == first min(len, size) bytes. Distinct = distinct event-log hash".to_string()
+        "three of four cases: one of 15 entry-point families (the fifteenth is the HTTP game through the real HTTP client) against a valid model server that falls silent at a drawn point of the exchange (UDP: after k = 0..5 datagrams; TCP: refused, SYN black-holed, accepts then silent, stalls after 1-40 bytes (HTTP: 1-1500, inside status line, headers or body), never closes), IPv4 or IPv6 destination, (read, write, connect) timeouts from {1 ns, 1 ms, 4 s, 1 h} (write and connect also None) or the defaults, retries 0..2; oracle over the history: every socket got the configured read / write timeouts and connect its connect timeout, no blocking call outlasts its timeout in virtual time, total virtual duration <= (retries+2) x steps x timeout + 1 s, error class (silence -> receive class, refusal / black hole -> SocketConnect), request bytes unmodified at the server. Every fourth case drives the re-exported transport layer directly: payload and reply sizes 0..65507 (boundary values and random), receive sizes, UDP / TCP, IPv4 / IPv6, short writes and segmentation: bytes at the peer == bytes sent, received == first min(len, size) bytes. Distinct = distinct event-log hash".to_string()
     }
 
     fn assumptions(&self) -> Vec<String> {
         vec![
             "that std and the kernel honour SO_RCVTIMEO / connect timeouts is trusted: the simulated OS implements exactly that contract (timeout -> WouldBlock at now+T, zero duration -> InvalidInput, v4 socket cannot send to a v6 address, write may be short)".into(),
-            "the ureq agent timeouts of http.rs (Eco) are not claimed: ureq owns its sockets, there is no seam, and a wall-clock test on real sockets would be runtime observation".into(),
+            "the HTTP game runs through the vendored HTTP client (ureq 2.12.1 with its TcpStream and Instant swapped for the simulator's); with no connect timeout configured its own 30 s default is accepted as a bound".into(),
             "sections are set to Enforce so that a silent section is visible in the result".into(),
         ]
     }
@@ -564,6 +564,7 @@ impl Prop for C12 {
     fn required_probes(&self) -> Vec<&'static str> {
         vec![
             "fault_refused",
+            "http_client_connects_over_simulated_tcp",
             "fault_syn_blackholed",
             "fault_accepts_then_silent",
             "fault_stalls_mid_stream",
